@@ -12,7 +12,7 @@ driver for C18 (`Float` instance of `OpacusLean.Model.Dist`).  One request per l
   D = Σ dims; floats are binary64 hex; noise = the value the patched `torch.normal` returns on
   that rank for that parameter in that step (a constant tensor).
 
-reply:  `ok|<params after DPDDP construction, W·D>|<per step, per rank: grad D, params D>|<union run: per step grad D, params D>|<draws per step: n {rank p std}>`
+reply:  `ok|<params after DPDDP construction, W·D>|<per step, per rank: grad D, params D>|<union run: per step grad D, params D>|<draws per step: n {rank p std}>|<expected_batch_size of the distributed / single-process optimizer>`
    or   `err <t> <ranks…>|…` with the steps before `t` (the hook raised on those ranks at step `t`). -/
 namespace Opacus.DistDriver
 open Opacus Opacus.Proto Opacus.Dist
@@ -180,7 +180,7 @@ def runCase (h : Hdr) (toks : List String) : Option String :=
         let s0 : St dimsL W := ⟨θ, θ0 ⟨0, hW⟩, 0, [], [], [], none⟩
         let s := steps.foldl (stepCase h W hW cD cS) s0
         let head := s.err.getD "ok"
-        some s!"{head}|{joinFloats initOut}|{joinFloats s.stepOut}|{joinFloats s.unionOut}|{" ".intercalate s.drawOut}"
+        some s!"{head}|{joinFloats initOut}|{joinFloats s.stepOut}|{joinFloats s.unionOut}|{" ".intercalate s.drawOut}|{floatHex cD.ebs} {floatHex cS.ebs}"
       | _ => none
     | _, _ => none
   else none
